@@ -58,3 +58,31 @@ Proof.
   rewrite Eo. unfold redact_tree. eexists. reflexivity.
 Qed.
 Print Assumptions C07_emitted_is_json.
+
+(* ---------- the model's fuel is an artefact without effect ---------- *)
+From Proofs Require Import ParseFuel FuelFacts.
+
+(* the parser: a successful parse consumes something, succeeds with fuel equal to what it consumes and
+   gives the same answer with any larger fuel; so if ANY fuel makes a line parse as an object,
+   parse_line (which supplies length + 1) parses it - no line is skipped because the model ran dry *)
+Theorem C07_parser_fuel_irrelevant : forall f l t r,
+  parse_value f l = Some (t, r) -> forall f', (List.length l - List.length r <= f')%nat -> parse_value f' l = Some (t, r).
+Proof. exact parse_value_fuel_irrelevant. Qed.
+Print Assumptions C07_parser_fuel_irrelevant.
+
+Theorem C07_parse_line_fuel_sufficient : forall l f m r,
+  parse_value f l = Some (JObj m, r) -> parse_line l = Some (JObj m).
+Proof. exact parse_line_fuel_sufficient. Qed.
+Print Assumptions C07_parse_line_fuel_sufficient.
+
+(* the operator lookup: the supplied fuel (path length + 1) is never exhausted, for any tables *)
+Theorem C07_lookup_fuel_sufficient : forall tb path root search,
+  traverse tb (S (List.length path)) path root search <> OutOfFuel.
+Proof. exact traverse_top_total. Qed.
+Print Assumptions C07_lookup_fuel_sufficient.
+
+(* the string reader is called with fuel = text length + 1; any larger fuel gives the same answer *)
+Theorem C07_string_fuel_irrelevant : forall l acc f1 f2,
+  (List.length l < f1)%nat -> (List.length l < f2)%nat -> parse_str f1 l acc = parse_str f2 l acc.
+Proof. intros l acc f1 f2. apply (parse_str_fuel_irrelevant (List.length l)). apply le_n. Qed.
+Print Assumptions C07_string_fuel_irrelevant.
